@@ -253,6 +253,11 @@ func (f *Flow) mkTerm(v ssa.Value) *Term {
 			}
 			return &Term{K: TPure, Name: name, Args: args, T: v.Type(), key: "pure:" + name + "(" + strings.Join(keys, ",") + ")"}
 		}
+		// table-driven classifier over a small domain (finfn.go): a function of its argument
+		if sc := c.StaticCallee(); sc != nil && !c.IsInvoke() && len(c.Args) == 1 && f.w.inPkg(sc) && f.w.finiteFn(sc) != nil {
+			a := f.term(c.Args[0])
+			return &Term{K: TPure, Name: "fin:" + name, Args: []*Term{a}, V: v, T: v.Type(), key: "fin:" + name + "(" + a.key + ")"}
+		}
 	case *ssa.Index:
 		if b, ok := x.X.Type().Underlying().(*types.Basic); ok && b.Info()&types.IsString != 0 {
 			a, i := f.term(x.X), f.term(x.Index)
@@ -456,6 +461,12 @@ func (f *Flow) evalStruct(t *Term, env Env, fl *evalFlags) ISet {
 			}
 		case strings.HasSuffix(t.Name, ".Nanosecond"):
 			return mkSet(0, 999999999)
+		case strings.HasPrefix(t.Name, "fin:"):
+			if sum := f.finCallee(t); sum != nil {
+				if r, ok := sum.image(f.finArgSet(t.Args[0], env)); ok && top != nil {
+					return r.Intersect(top)
+				}
+			}
 		case t.Name == "getTag":
 			fs := f.eval(t.Args[0], env, fl)
 			if fs == nil || fs.Contains(-1) {
@@ -994,6 +1005,15 @@ func (f *Flow) assign(env Env, t *Term, s ISet) {
 		return
 	}
 	switch t.K {
+	case TPure:
+		// a fact about a classifier's result is a fact about its argument: the pre-image
+		if strings.HasPrefix(t.Name, "fin:") {
+			if sum := f.finCallee(t); sum != nil {
+				if cur := f.finArgSet(t.Args[0], env); cur != nil {
+					f.assign(env, t.Args[0], sum.preimage(cur, s))
+				}
+			}
+		}
 	case TConv:
 		// value-preserving on the operand's current set?
 		a, _ := f.Eval(t.A, env)
